@@ -26,11 +26,12 @@ func main() {
 	dump := fs.Bool("dump", false, "keep and print query paths")
 	verbose := fs.Bool("v", false, "verbose")
 	obRe := fs.String("ob", "", "regexp on obligation names")
+	split := fs.Bool("split", false, "split failing goals into conjuncts (debugging)")
 	fs.Parse(os.Args[2:])
 
 	switch cmd {
 	case "verify":
-		os.Exit(cmdVerify(*repo, *verif, *fnRe, *obRe, *timeout, *dump, *verbose))
+		os.Exit(cmdVerify(*repo, *verif, *fnRe, *obRe, *timeout, *dump, *verbose, *split))
 	case "check":
 		os.Exit(cmdCheck(*repo, *verif, *prop, *tier, *timeout, *verbose))
 	case "baseline":
@@ -52,7 +53,7 @@ func scratchDir() string {
 }
 
 // cmdVerify: development command: verify functions under contract matching a regexp and print results.
-func cmdVerify(repo, verif, fnRe, obRe string, timeout int, dump, verbose bool) int {
+func cmdVerify(repo, verif, fnRe, obRe string, timeout int, dump, verbose, split bool) int {
 	t0 := time.Now()
 	e, err := loadEngine(repo, verif+"/spec")
 	if err != nil {
@@ -132,9 +133,59 @@ func cmdVerify(repo, verif, fnRe, obRe string, timeout int, dump, verbose bool) 
 			}
 		}
 	}
+	if split {
+		for _, ob := range obs {
+			if ob.ok() || ob.Result == "unbound" {
+				continue
+			}
+			parts := conjuncts(ob.Goal)
+			if len(parts) < 2 {
+				continue
+			}
+			var subs []*Obligation
+			for k, pt := range parts {
+				so := *ob
+				so.Name = fmt.Sprintf("%s::conj%d", ob.Name, k+1)
+				so.Goal = pt
+				so.Raw = nil
+				so.Result = ""
+				so.TimeS = 0
+				subs = append(subs, &so)
+			}
+			solveAll(e, ctxs, subs, solveOpts{timeout: timeout, dir: dir})
+			for _, so := range subs {
+				if !so.ok() {
+					fmt.Printf("  conjunct FAIL %-8s %s\n     %s\n", so.Result, so.Name, trunc(so.Goal, 600))
+				}
+			}
+		}
+	}
 	fmt.Printf("%d obligations, %d not discharged, %.1fs\n", len(obs), bad, time.Since(t0).Seconds())
 	if bad > 0 {
 		return 1
 	}
 	return 0
+}
+
+// conjuncts flattens nested top-level (and ...) of an s-expression
+func conjuncts(g string) []string {
+	g = strings.TrimSpace(g)
+	if strings.HasPrefix(g, "(=> ") {
+		parts := splitTop(g[1 : len(g)-1])
+		if len(parts) == 3 {
+			var out []string
+			for _, c := range conjuncts(parts[2]) {
+				out = append(out, "(=> "+parts[1]+" "+c+")")
+			}
+			return out
+		}
+	}
+	if !strings.HasPrefix(g, "(and ") {
+		return []string{g}
+	}
+	var out []string
+	for _, p := range splitTop(g[1 : len(g)-1])[1:] {
+		out = append(out, conjuncts(p)...)
+	}
+	return out
 }
